@@ -1806,6 +1806,39 @@ def _wrapped_by(node, names):
 _RE_FUNCS = {"compile", "match", "search", "fullmatch", "sub", "subn", "split", "findall", "finditer"}
 
 
+def rule_T6(ctx):
+    """table decoders visit every entry a bounded number of times (C13: time proportional to the table).  Both allocation-table
+    decoders start a walk at every entry not yet marked and mark what they pass; the total work is linear in the table only if a walk
+    also ENDS when it reaches an entry that an earlier walk has marked - otherwise a chain that is met from its far end (each start one
+    link further from the end) is re-walked in full from every one of its entries."""
+    for path, q in (("smpl_extract/akai/sat.py", "SegmentAllocationTableAdapter._decode"), ("smpl_extract/roland/s7xx/fat.py", "FatAreaAdapter._decode")):
+        fn = ctx.fn(path, q, "T6")
+        outer = [f for f in own_nodes(fn) if isinstance(f, ast.For) and any(isinstance(w, ast.While) for w in ast.walk(f))]
+        if len(outer) != 1:
+            raise AnalysisError("T6", where(fn), f"expected one scan loop over the table with a walk loop inside, found {len(outer)}")
+        walks = [w for w in ast.walk(outer[0]) if isinstance(w, ast.While)]
+        if len(walks) != 1:
+            raise AnalysisError("T6", where(fn), f"expected one walk loop, found {len(walks)}")
+        walk = walks[0]
+        # marks kept across walks: subscript-stored True inside the walk, bound outside the scan loop
+        inside = {n.value.id for a in ast.walk(walk) if isinstance(a, ast.Assign) and isinstance(a.value, ast.Constant) and a.value.value is True
+                  for n in a.targets if isinstance(n, ast.Subscript) and isinstance(n.value, ast.Name)}
+        bound_in_scan = {t.id for a in ast.walk(outer[0]) if isinstance(a, (ast.Assign, ast.AnnAssign)) for t in (a.targets if isinstance(a, ast.Assign) else [a.target]) if isinstance(t, ast.Name)}
+        marks = sorted(inside - bound_in_scan)
+        if not marks:
+            raise AnalysisError("T6", where(fn), "no mark structure kept across walks found")
+        # a decision inside the walk that reads the marks and leaves the walk
+        tested = []
+        for i in ast.walk(walk):
+            if isinstance(i, ast.If) and any(isinstance(x, ast.Subscript) and isinstance(x.value, ast.Name) and x.value.id in marks and isinstance(x.ctx, ast.Load) for x in ast.walk(i.test)):
+                if any(isinstance(x, (ast.Break, ast.Return, ast.Raise)) for b in i.body for x in ast.walk(b)):
+                    tested.append(i)
+        ok = bool(tested)
+        ctx.ob("T6", walk, f"{q}: a walk ends when it reaches an entry that an earlier walk has already marked (every entry is walked a bounded number of times)", ok,
+               "" if ok else f"the marks `{', '.join(marks)}` are written but never consulted inside the walk: a chain of n clusters stored in descending order is walked from each of its "
+               "entries to its end - about n*n/2 steps for one pass over the table", inst="linear-walk")
+
+
 def rule_T5(ctx):
     """every regular expression of the package is free of the constructs that make the backtracking matcher exponential
     (matching time is part of the CPU bound of C13: cue sheet lines, names and paths are input-controlled)"""
